@@ -423,9 +423,12 @@ func (vm *VM) atEnd(f *frame, pos int) {
 	}
 }
 
-// jump is ExecuteJump: the target must be inside the script.
+// jump is ExecuteJump: the target must be inside the script ("position < 0 ||
+// position >= Script.Length => ArgumentOutOfRangeException"): a JMP-like
+// transfer exactly to the end of the script is settled by that rule (fault)
+// and therefore NOT flagged undetermined, unlike the InstructionPointer
+// setter forms below.
 func (vm *VM) jump(f *frame, pos int) {
-	vm.atEnd(f, pos)
 	if pos < 0 || pos >= len(f.script) {
 		fault("jump out of range: %d", pos)
 	}
